@@ -1262,3 +1262,175 @@ def c12(tier, sc):
         rep.sample(show(x))
     rep.assumptions += ["the executed pass sequence is read from the hooks inside the real IsSQLi call; the reference readings are the six fresh-state passes"]
     return rep.finish()
+
+
+@check("C18")
+def c18(tier, sc):
+    rep = Report("C18", tier, "model_checking")
+    vh = build_harness(sc)
+    tfile, _ = gen_tables(sc, vh)
+    d = stage_specs(sc, "c18", [tfile])
+    big = tier == "thorough"
+    cases = []
+    # quoted strings: every opening mode x bodies over {delimiter, other quote, backslash, filler}
+    qopen = ["", "'", '"', "`", "n'", "N'", "e'", "E'", "u&'", "U&'", "@'", '@"', "@`", "@@'", "1 '"]
+    cases += sqli_props(sc, d, rep, "c18quote", "c18", byte_units("'\"`\\a"), 6 if big else 5, openers=qopen)
+    # Oracle q-strings: all 223 delimiter bytes >= 33
+    qops = ["q'" + chr(b) for b in range(33, 256)] + ["Q'[", "nq'(", "NQ'x", "nQ'\xe9"]
+    for lo in range(0, len(qops), 60):
+        cases += sqli_props(sc, d, rep, "c18q%d" % lo, "c18", ["'", "a"], 3 if not big else 4, openers=qops[lo:lo + 60])
+    for dl in ("[", "(", "{", "<", "x", "'", "\xe9", "!"):
+        cl = {"[": "]", "(": ")", "{": "}", "<": ">"}.get(dl, dl)
+        cases += sqli_props(sc, d, rep, "c18qb%d" % ord(dl), "c18", list(dict.fromkeys([cl, "'", "a", dl])), 5 if big else 4, openers=["q'" + dl])
+    # dollar-quoted strings
+    dops = ["$$", "$a$", "$A$", "$ab$", "$aB$"]
+    cases += sqli_props(sc, d, rep, "c18dollar", "c18", byte_units("$aAb x"), 6 if big else 5, openers=dops)
+    # periodic tails (templates are literal inputs with the opener counted)
+    items = []
+    meta = []
+    for c in cases:
+        fl_list = c["flags"]
+        for fl in fl_list:
+            items.append({"in": c["in"], "mode": fl})
+            exp = c["exp"][str(fl)] if isinstance(c["exp"], dict) else c["exp"][0]
+            meta.append((c, fl, exp))
+    res = vlib.harness_map(sc, vh, "sqli-lex", items)
+    nn = 0
+    for (c, fl, exp), r in zip(meta, res):
+        if r is None or "crash" in r or "hang" in r or r.get("panic"):
+            continue
+        nn += 1
+        idx = c["idx"] - 1
+        ok = len(r["toks"]) > idx
+        if ok:
+            t = r["toks"][idx]
+            st = r["steps"][idx]
+            ok = (t["pos"] == exp["start"] and t["len"] == min(exp["clen"], 31) and (t["close"] != 0) == exp["closed"]
+                  and st[1] == exp["resume"])
+        if not ok:
+            got = (r["toks"][idx], r["steps"][idx]) if len(r["toks"]) > idx else None
+            rep.violation("literal (%s) in %r mode=%d must have content %d bytes from offset %d, closed=%s, resume at %d; real lexer: %s" % (
+                c["kind"], show(c["in"]), fl, exp["clen"], exp["start"], exp["closed"], exp["resume"], json.dumps(got)[:300]),
+                {"kind": "sqli.c18", "in": c["in"], "flags": fl, "idx": c["idx"], "expect": exp})
+    rep.part("real", cases=len(cases), literals_checked=nn)
+    rep.cov["traces_validated_against_impl"] = nn
+    rep.cov["evaluations"] = nn
+    for c in cases[50:52] + cases[-2:]:
+        rep.sample({"in": show(c["in"]), "kind": c["kind"], "expect": c["exp"]})
+    rep.assumptions += ["the oracle (CloseByRuns / first close-delimiter+quote / first tag repetition) is stated independently of the scanner; "
+                        "TLC checks that the specification's scanner agrees with it on the same space"]
+    return rep.finish()
+
+
+@check("C10")
+def c10(tier, sc):
+    rep = Report("C10", tier, "model_checking")
+    vh = build_harness(sc)
+    tfile, _ = gen_tables(sc, vh)
+    d = stage_specs(sc, "c10", [tfile])
+    big = tier == "thorough"
+    tmpl = [x for x in vgen.corpus("sqli.txt") if len(x) <= 70]
+    for kind in ("sqli", "folding", "tokens"):
+        tmpl += [vgen.b(i) for _, i, _ in vgen.fixtures(kind) if 0 < len(i) <= 50]
+    tmpl = list(vgen.dedup(tmpl))
+    if not big:
+        tmpl = tmpl[::2]
+    un = ["b", "e", "n", "q", "u", "x", "d", "f", "o", "r", "i", "N", "X", "'", "1", " ", "\\", "$", "0", "&", "or ", "union ", "select ", "in ", "(",
+          "like ", "not ", "user", "if", ";", "=", "."]
+    cases = sqli_props(sc, d, rep, "case", "case", un, 3, templates=tmpl)
+    flat = []
+    for c in cases:
+        flat.append(c["in"])
+        flat += c["variants"]
+    res = sqli_api(sc, vh, flat)
+    k = 0
+    npairs = 0
+    for c in cases:
+        base = res[k]
+        for j, v in enumerate(c["variants"]):
+            r = res[k + 1 + j]
+            npairs += 1
+            if bad_result(base) or bad_result(r):
+                continue
+            if (r["sqli"], r["fp"]) != (base["sqli"], base["fp"]):
+                rep.violation("IsSQLi(%r) = (%s, %r) but IsSQLi(%r) = (%s, %r) (case re-assignment outside the exempt positions)" % (
+                    show(c["in"]), base["sqli"], base["fp"], show(v), r["sqli"], r["fp"]),
+                    {"kind": "sqli.pair", "rel": "case", "a": c["in"], "b": v})
+        k += 1 + len(c["variants"])
+    rep.part("real", bases=len(cases), pairs=npairs)
+    rep.cov["traces_validated_against_impl"] = npairs
+    rep.cov["evaluations"] = npairs
+    for c in cases[500:503]:
+        rep.sample({"in": show(c["in"]), "variants": [show(v) for v in c["variants"][:3]]})
+    rep.assumptions += ["exempt positions are computed conservatively from the input itself (letter after a backslash, $letters$ tags, "
+                        "q-quote delimiter letters; inputs containing sp_password in any case are skipped)"]
+    return rep.finish()
+
+
+def benign_words(tables):
+    """Words whose upper-case is neither a key nor a space-separated component of a key of the current table."""
+    comp = set()
+    for e in tables["keywords"]:
+        k = bytes(e["key"]).decode("latin1")
+        comp.add(k)
+        for part in k.split(" "):
+            comp.add(part)
+    import itertools
+    letters = "benqux_adz19"
+    words = []
+    for ln in (1, 2, 3):
+        for t in itertools.product(letters, repeat=ln):
+            w = "".join(t)
+            if w[0].isdigit():
+                continue
+            if w.upper() in comp:
+                continue
+            words.append(w)
+    return words, comp
+
+
+@check("C14")
+def c14(tier, sc):
+    rep = Report("C14", tier, "model_checking")
+    vh = build_harness(sc)
+    tfile, jfile = gen_tables(sc, vh)
+    tables = json.load(open(jfile))
+    d = stage_specs(sc, "c14", [tfile])
+    big = tier == "thorough"
+    r = vgen.rng("c14")
+    words, comp = benign_words(tables)
+    pool = r.sample(words, 14 if big else 9) + ["hello", "Bob_1", "x9"]
+    pool = [w for w in pool if w.upper() not in comp]
+    nums = ["0", "7", "42", "2024"]
+    un = [w + " " for w in pool] + [n + " " for n in nums]
+    longw = ["a" * 30, "b" * 31, "c" * 32, "d" * 33, "q" * 31 + "1"]
+    shapes = []
+    for a, b2, c in (("bob", "mail", "org"), ("x9", "zz", "qq"), ("hello", "Bob_1", "x9")):
+        if all(w.upper() not in comp for w in (a, b2, c)):
+            shapes += ["%s@%s.%s" % (a, b2, c), "%s.%s@%s.%s" % (a, b2, b2, c), "3.14159", "0.5", "12.0", "%s %s, %s %s." % (a, b2, c, a),
+                       "%s, %s." % (a.capitalize(), c), "%s %s. %s %s." % (a, b2, c, a), "%s 42 %s, 7 %s." % (a, b2, c)]
+    tmpl = [vgen.b(x) for x in shapes + longw]
+    cases = sqli_props(sc, d, rep, "c14", "c14", un, 5 if big else 4, templates=tmpl)
+    inputs = [c["in"] for c in cases]
+    # sampled beyond the bound: long runs, 31/32/33-byte words
+    allw = [w for w in words if len(w) >= 2] + longw + nums
+    for _ in range(30000 if big else 3000):
+        k = r.randint(5, 40)
+        inputs.append(vgen.b(" ".join(r.choice(allw) for _ in range(k))))
+    res = sqli_api(sc, vh, inputs)
+    nn = 0
+    for x, rr in zip(inputs, res):
+        if bad_result(rr):
+            continue
+        nn += 1
+        if rr["sqli"] or rr["fp"] != "":
+            rep.violation("IsSQLi(%r) = (%s, %r) for plain words and numbers" % (show(x), rr["sqli"], rr["fp"]), {"kind": "sqli.c14", "a": x})
+    rep.part("real", model_cases=len(cases), evaluated=nn, word_pool=pool)
+    rep.cov["traces_validated_against_impl"] = nn
+    rep.cov["evaluations"] = nn
+    for x in inputs[100:102] + inputs[-2:]:
+        rep.sample(show(x))
+    rep.assumptions += ["the word family is computed against the current keyword table (adding a keyword shrinks the family)",
+                        "no rewrite rule applies to a run of barewords and numbers, so at most six tokens are fetched (invariant PlainFetchBound) "
+                        "and bounded enumeration of runs covers the unbounded family; NoPlainFingerprint checks all {n,1} sequences up to length 5"]
+    return rep.finish()
